@@ -5,6 +5,36 @@ CHECKS = {
  "C01": dict(tech="proptest generated pairs vs exact DE-9IM oracle (cell decomposition), transpose + re-representation metamorphic relations",
              text="Every generated ordered pair (all 10 types + collections, coincidence-biased lattice scenes, exact similarity images up to offsets of 2^40) is related by geo and compared cell by cell with an exact by-definition DE-9IM computed from the joint arrangement; both operand orders, the Geometry-enum path and two re-representations per pair. Held-on-everything-explored, not a proof.",
              note="Trusted: the harness's exact reference model (i128 rational arrangement + by-definition point location, self-tested); inputs are exact images of small-integer lattice geometries only.", ref="DESIGN.md §4 C01"),
+ "C02": dict(tech="proptest generated pairs; every Intersects/Contains/Within impl and coordinate_position vs masks on the exact DE-9IM oracle / exact point location",
+             text="For every generated ordered pair all concrete-type, Geometry-enum, mixed and Coord forms of intersects / contains / is_within are compared with the documented masks evaluated on the exact oracle matrix, and coordinate_position with exact point location at up to 200 lattice points around each operand.",
+             note="Trusted: exact reference model; mask semantics as documented on the traits; lattice-image inputs only.", ref="DESIGN.md §4 C02"),
+ "C03": dict(tech="proptest adversarial f64 generators (ulp-perturbed collinear triples, near-segment points) vs arbitrary-precision exact signs",
+             text="Orientation, point-on-segment, segment-segment, winding and point-in-ring/polygon/triangle answers are compared with exact signs computed in arbitrary-precision dyadic arithmetic on inputs built to sit on the rounding boundary (the naive determinant has the wrong sign in ~14% of cases).",
+             note="Trusted: hand-written BigInt/dyadic arithmetic (unit-tested against i128). Domain: coordinates zero or within [2^-400, 2^400] (no underflow in the adaptive predicates' expansions).", ref="DESIGN.md §4 C03"),
+ "C05": dict(tech="proptest generated polygons with independent ring directions under exact similarities vs exact i128 twice-area",
+             text="signed/unsigned area, Rect/Triangle vs polygon form, collection sums, winding_order/is_cw/is_ccw for every ring with rotated start and repeated points, and orient(Default/Reversed) are compared with the exact integer shoelace area scaled by 4^k, at translations up to 2^40.",
+             note="Trusted: exact integer area on the lattice; tolerance 1e-12 x sum of |edge determinants|.", ref="DESIGN.md §4 C05"),
+ "C06": dict(tech="proptest generated (nested, mixed-dimension, degenerate) geometries vs by-definition centroid with exact integer moments",
+             text="centroid of every type incl. degenerate and empty members and nested mixed collections is compared with the definition (exact integer moments for areas, length-weighted midpoints, mean of points), None iff no coordinates, hull containment, equivariance under exact similarities.",
+             note="Trusted: oracle accumulators; tolerance 16 ulp of the coordinate magnitude + 1e-9 extent. Point weights of degenerate line strings in zero-dimensional collections are unspecified and only hull-checked.", ref="DESIGN.md §4 C06"),
+ "C08": dict(tech="proptest generated coordinate multisets (tiny lattices, collinear, large-magnitude near-parallel rows) vs exact strict hull",
+             text="quick_hull, graham_hull and convex_hull() outputs are checked for closedness, strict left turns, vertex membership, containment of every input (exact i128 orientation) and vertex-set equality with the exact strict hull; minimum_rotated_rect for containment and area bound.",
+             note="Trusted: exact monotone-chain hull in i128; integer-valued coordinates (f64 up to 2^52, i64 below 2^29).", ref="DESIGN.md §4 C08"),
+ "C09": dict(tech="proptest generated lines/rings and tolerances (incl. exact ties) vs validity predicates over the simplified output",
+             text="RDP, Visvalingam and topology-preserving Visvalingam outputs (coordinate and index variants, Line/MultiLine/Polygon/MultiPolygon) are checked to be index-consistent subsequences keeping the end points, within the distance / area bound (existentially over embeddings when points repeat), closed and not below four coordinates where claimed, identity for eps <= 0.",
+             note="Trusted: own point-segment distance and triangle area in f64 with relative tolerance 1e-9.", ref="DESIGN.md §4 C09"),
+ "C11": dict(tech="proptest generated segment pairs (lattice, collinear, nearly parallel, large magnitude) vs exact arbitrary-precision classification",
+             text="line_intersection's class (None / proper / improper / Collinear), improper point bits, overlap endpoints, envelope containment and conditioning-scaled accuracy of proper points, agreement with intersects, and independence of segment order and direction are checked against an exact classification.",
+             note="Trusted: BigInt dyadic arithmetic. Domain: coordinates zero or within [2^-400, 2^400]. The proper flag is not asserted for zero-length segments.", ref="DESIGN.md §4 C11"),
+ "C17": dict(tech="proptest generated call histories on one PreparedGeometry vs plain relate and the exact DE-9IM oracle",
+             text="Histories of 1-12 relate calls reuse one prepared geometry (concrete type or enum) in first / second position, against prepared or plain partners, with itself, through clones, with repeats; after every call the result must equal plain relate, the exact oracle matrix and the earlier result of the same step.",
+             note="Trusted: exact reference model; single-threaded use (PreparedGeometry is !Send).", ref="DESIGN.md §4 C17"),
+ "C18": dict(tech="proptest generated API histories with a lock-step model (stateful / model-based testing)",
+             text="Sequences of up to 30 constructor / mutator calls (incl. fallible closures failing after k edits) on Polygon<f64>/<i32> and Rect are run against a model; after every call all rings must be closed and equal the model, Results passed through, Rect min <= max, conversions preserve coordinates and order.",
+             note="Finite coordinates; the documented panic of Rect::set_min/max on out-of-range bounds is accepted.", ref="DESIGN.md §4 C18"),
+ "C19": dict(tech="proptest generated structural values vs an independent recursive traversal (differential)",
+             text="For arbitrary (also invalid / empty / nested) values of all types, coords_count, coords_iter, exterior_coords_iter, lines_iter, map_coords(_in_place), try_map_coords (Ok and first error), bounding_rect, extremes and is_empty are compared with a reference traversal over the public fields, via the concrete type and the Geometry enum.",
+             note="Holes are kept inside the shell's bounding box (Polygon::bounding_rect is documented to use the exterior).", ref="DESIGN.md §4 C19"),
 }
 NOT_YET = {}
 props = [json.loads(l) for l in open("properties.jsonl")]
